@@ -385,6 +385,12 @@ func (t *fnTrans) siteBefore(site string, in ssa.Instruction, cc *ssa.CallCommon
 	if t.contract == nil {
 		return
 	}
+	t.curCallee = ""
+	if cc != nil {
+		if callee := t.g.staticCallee(cc); callee != nil {
+			t.curCallee = t.g.fnKey(callee)
+		}
+	}
 	for k, sl := range t.contract.atBefore[site] {
 		e := t.selfCtx()
 		if cc != nil {
